@@ -13,6 +13,12 @@ Theorem C19_store : forall d, NoDup (map fst d) -> forall ops st k,
   match last_set ops k None with Some v => Some v | None => value_of d st k end.
 Proof. exact prun_value. Qed.
 
+(* ... where the sequences include writes that are refused because the value cannot be
+   stored (PSetBad): such a write raises and leaves every key as it was *)
+Theorem C19_refused_write_keeps : forall d st k,
+  fst (pstep d st (PSetBad k)) = st /\ exists e, snd (pstep d st (PSetBad k)) = Err e.
+Proof. exact refused_write_keeps. Qed.
+
 Theorem C19_read : forall d st k,
   (forall v st', pget d st k = Ok (v, st') ->
      value_of d st k = Some v /\ forall k', value_of d st' k' = value_of d st k') /\
